@@ -224,12 +224,12 @@ def _run_case(case, exec_seed, exec_tape, stack):
           ctx = C.Scratch()
       with ctx as root, warnings.catch_warnings():
         warnings.simplefilter("ignore")
-        sim = C.new_sim(tape, root, preempt=cfg["preempt"],
+        sim = C.new_sim(tape, root, preempt=cfg["preempt"], step_cap=C.step_cap_for(w),
                         fs_kwargs={"short_writes": cfg.get("short_writes", 0.0), "buffer_size": cfg.get("buffer_size")})
         folder = os.path.join(root, "run") if cfg["run_folder"] else None
         if cfg.get("line_preempt"):
             sim.kernel.line_preempt = ("/pipefunc/map/_storage_array/",)
-            sim.kernel.step_cap = 400000
+            sim.kernel.step_cap = 20 * C.step_cap_for(w)
         res = None
         err = None
         loop = None
